@@ -24,14 +24,61 @@ def runOps (c : Config) : Flags → List (Op Unit) → List String → String
     | .error e => ";".intercalate (("error " ++ e) :: acc).reverse
     | .ok (ps, f') => runOps c f' os ((primsStr ps ++ "@" ++ flagsStr f') :: acc)
 
-/-- `W coord kernel corrector corrector2 safe keep isSync recalc allocated op*` -/
+def runSaba (c : SabaConfig) : Flags → List (Op Unit) → List String → String
+  | _, [], acc => ";".intercalate acc.reverse
+  | f, o :: os, acc =>
+    match sabaApiOps c f o with
+    | .error e => ";".intercalate (("error " ++ e) :: acc).reverse
+    | .ok (ps, f') => runSaba c f' os ((primsStr ps ++ "@" ++ flagsStr f') :: acc)
+
+def mflagsStr (f : MFlags) : String :=
+  s!"{bs f.isSync} {bs f.recalc} {bs f.recalcR} {bs f.allocD} {bs f.allocT}"
+
+def runMerc (safe : Bool) : MFlags → List (Op Unit) → List String → String
+  | _, [], acc => ";".intercalate acc.reverse
+  | f, o :: os, acc =>
+    let (ps, f') := mOpOps safe f o
+    runMerc safe f' os ((",".intercalate (ps.map MPrim.toString) ++ "@" ++ mflagsStr f') :: acc)
+
+/-- the footprint table of the model (`transfer`) as a dependency matrix: row = output
+    component, column = input component, `1` = may depend.  rv/c09.py tests it on the real
+    primitives by perturbation. -/
+def footPrims : List Prim :=
+  [.fromInertial, .toInertial, .posJacobi, .posBary, .kepler (.frac 1 2), .com (.frac 1 2),
+   .jump (.frac 1 2), .interaction (.frac 1 2), .updateAcc, .jerk, .jacAcc, .posJacobiAll,
+   .jacAccAll, .toInertialAll]
+
+def compsOf (k : Nat) (v : Bool) : Comps :=
+  ⟨if k == 0 then v else !v, if k == 1 then v else !v, if k == 2 then v else !v,
+   if k == 3 then v else !v, if k == 4 then v else !v, if k == 5 then v else !v⟩
+
+def compGet (L : Comps) : Nat → Bool
+  | 0 => L.pj | 1 => L.pos | 2 => L.vel | 3 => L.acc | 4 => L.saved | _ => L.tmp
+
+def footRow (p : Prim) (j : Nat) : String :=
+  String.join ((List.range 6).map fun k => if compGet (transfer p (compsOf k false)) j then "0" else "1")
+
+def footStr : String :=
+  " ".intercalate (footPrims.map fun p =>
+    p.toString ++ "/" ++ "|".intercalate ((List.range 6).map (footRow p)))
+
+/-- `W coord kernel corrector corrector2 safe keep c2fixed isSync recalc allocated op*` -/
 def step (toks : List String) : String :=
   match toks with
-  | "W" :: co :: ke :: cr :: c2 :: sa :: kp :: isy :: rc :: al :: ops =>
+  | "W" :: co :: ke :: cr :: c2 :: sa :: kp :: fx :: isy :: rc :: al :: ops =>
     match coordOf co, ke.toNat?, cr.toNat?, ops.mapM opOf with
     | some co, some ke, some cr, some ops =>
-      runOps ⟨co, ke, cr, b01 c2, b01 sa, b01 kp⟩ ⟨b01 isy, b01 rc, b01 al⟩ ops []
+      runOps ⟨co, ke, cr, b01 c2, b01 sa, b01 kp, b01 fx⟩ ⟨b01 isy, b01 rc, b01 al⟩ ops []
     | _, _, _, _ => "bad-op"
+  | "S" :: ty :: sa :: kp :: isy :: rc :: al :: ops =>
+    match ty.toNat?, ops.mapM opOf with
+    | some ty, some ops => runSaba ⟨ty, b01 sa, b01 kp⟩ ⟨b01 isy, b01 rc, b01 al⟩ ops []
+    | _, _ => "bad-op"
+  | ["FOOT"] => footStr
+  | "M" :: sa :: isy :: rc :: rr :: ad :: atm :: ops =>
+    match ops.mapM opOf with
+    | some ops => runMerc (b01 sa) ⟨b01 isy, b01 rc, b01 rr, b01 ad, b01 atm⟩ ops []
+    | none => "bad-op"
   | _ => "bad-op"
 
 def main : IO Unit := runLines step
